@@ -83,6 +83,13 @@ func (w *LiveWorld) ref(e *LEnt, from int) string {
 func (w *LiveWorld) EntLine(e *LEnt, v int) string {
 	t := tag(v, e.ID)
 	trailer := fmt.Sprintf(" //@%dv%d", e.ID, v)
+	if e.Kind == "ivar" && e.Dep != 0 {
+		// initialised from a function declared LATER in the same file: declarations are
+		// hoisted, so the initialiser sees this version's function
+		if d := w.ent(e.Dep); d != nil && d.Pkg == e.Pkg && d.File == e.File && d.Kind == "func" {
+			return fmt.Sprintf("var %s = %s() - %d + %d%s", e.name(), d.name(), d.ID, e.ID, trailer)
+		}
+	}
 	if e.Kind == "ivar" {
 		if e.Tmpl%2 == 1 {
 			return fmt.Sprintf("var %s int = %d%s", e.name(), t, trailer) // typed declaration with initialiser
@@ -154,14 +161,32 @@ func (w *LiveWorld) pkgClause(pkg int) string { return "package " + alias(w.Pkgs
 // EntFile is the text of one entity file with every entity at version v.
 func (w *LiveWorld) EntFile(pkg, file, v int) string {
 	var b strings.Builder
-	b.WriteString(w.pkgClause(pkg) + "\n")
-	for i := range w.Ents {
-		e := &w.Ents[i]
-		if e.Pkg == pkg && e.File == file {
-			b.WriteString(w.EntLine(e, v) + "\n")
+	for _, h := range w.entHeader(pkg) {
+		b.WriteString(h + "\n")
+	}
+	// variables first, functions after them: a package's declaration order must not matter
+	for pass := 0; pass < 2; pass++ {
+		for i := range w.Ents {
+			e := &w.Ents[i]
+			isVar := e.Kind == "ivar" || e.Kind == "zvar" || e.Kind == "bulk"
+			if e.Pkg == pkg && e.File == file && isVar == (pass == 0) {
+				b.WriteString(w.EntLine(e, v) + "\n")
+			}
 		}
 	}
 	return b.String()
+}
+
+// entHeader: the version-independent first lines of an entity file. Files of package main
+// import the libraries themselves, so that one file can also be (re)loaded on its own.
+func (w *LiveWorld) entHeader(pkg int) []string {
+	h := []string{w.pkgClause(pkg)}
+	if pkg == 0 {
+		for p := 1; p < len(w.Pkgs); p++ {
+			h = append(h, fmt.Sprintf("import %q", w.Pkgs[p].Path))
+		}
+	}
+	return h
 }
 
 // Infra is the version-independent file of a package.
@@ -363,7 +388,17 @@ func GenLiveWorld(r *core.PRNG) *LiveWorld {
 		}
 		if r.Bool() {
 			id++
-			w.Ents = append(w.Ents, LEnt{ID: id, Kind: "ivar", Pkg: p, File: r.Intn(w.Pkgs[p].NFiles), Tmpl: r.Intn(4)})
+			iv := LEnt{ID: id, Kind: "ivar", Pkg: p, File: r.Intn(w.Pkgs[p].NFiles), Tmpl: r.Intn(4)}
+			if r.Bool() {
+				// from a function of the same file, if there is one
+				for _, f := range w.Ents {
+					if f.Kind == "func" && f.Pkg == p && f.File == iv.File {
+						iv.Dep = f.ID
+						break
+					}
+				}
+			}
+			w.Ents = append(w.Ents, iv)
 		}
 	}
 	if r.Chance(1, 3) {
